@@ -440,6 +440,7 @@ namespace pika::threads::detail {
         PIKA_VERIF_PRE("el.start", static_cast<scheduler_base const*>(sched_.get()));
         [[maybe_unused]] pika::runtime_state oldstate = state.exchange(runtime_state::running);
         PIKA_VERIF_POST("el.start", static_cast<scheduler_base const*>(sched_.get()), thread_num, static_cast<std::uint64_t>(static_cast<std::uint8_t>(oldstate)));
+        PIKA_VERIF_POST("pool.worker", &state, thread_num, global_thread_num);
         PIKA_ASSERT(oldstate <= runtime_state::running);
 
         // wait for all threads to start up before before starting pika work
